@@ -35,9 +35,22 @@ type SW struct {
 	// the same signer that is bound to fail (a transfer of more than exists): the whole transaction is refused, the
 	// helpers report the failure, and nothing of the first message may remain.
 	RollbackProb float64
+	// UpperProb: probability that the creator of a plan purchase or post spells its own address in upper case
+	UpperProb float64
 }
 
 func (s *SW) deliver(i int, msg sdk.Msg) chain.TxResult {
+	if s.UpperProb > 0 && s.rc.Chance(s.UpperProb) {
+		// the signer spells its own address in upper case (valid bech32, same account, same signature)
+		switch m := msg.(type) {
+		case *storagetypes.MsgPostFile:
+			m.Creator = strings.ToUpper(m.Creator)
+			s.rc.Count("upper_case_creator_messages", 1)
+		case *storagetypes.MsgBuyStorage:
+			m.Creator = strings.ToUpper(m.Creator)
+			s.rc.Count("upper_case_creator_messages", 1)
+		}
+	}
 	if s.RollbackProb > 0 && s.rc.Chance(s.RollbackProb) {
 		huge, _ := sdk.NewIntFromString("1000000000000000000000000000000")
 		s.rc.Count("messages_in_a_transaction_that_rolls_back", 1)
